@@ -175,6 +175,24 @@ RescaleRes(st) ==
     [err |-> a.lvl <= K - 1, pre |-> TRUE, degs |-> {a.deg},
      out |-> IF a.lvl <= K - 1 THEN Dead ELSE MkOut(a.m, a.fb, SxDivQ(a.sx, a.lvl), a.lvl - K, 1, a.md)]
 
+\* RescaleTo(default scale): divide by the last prime, one prime at a time, while the scale stays at or above half the
+\* default scale; the result does not depend on the receiver (whatever its level or degree was).  "clear" is false when a
+\* decision falls within the resolution of the log-scale: such calls are outside the contract modelled here.
+SxDiv1(x, l) == [two |-> x.two, e |-> [i \in 1..(L + 1) |-> IF i - 1 = l THEN x.e[i] + 1 ELSE x.e[i]]]
+RECURSIVE RTo(_, _)
+RTo(x, l) ==
+    IF l < 0 THEN [sx |-> x, lvl |-> l, clear |-> TRUE]
+    ELSE LET y == SxDiv1(x, l)
+             gap == LsOf(y) - (LDelta - 1048576)
+         IN IF Abs(gap) <= 64 THEN [sx |-> x, lvl |-> l, clear |-> FALSE]
+            ELSE IF gap < 0 THEN [sx |-> x, lvl |-> l, clear |-> TRUE]
+            ELSE RTo(y, l - 1)
+RescaleToRes(st) ==
+    LET a == reg[st.a]
+        r == RTo(a.sx, a.lvl)
+    IN [err |-> a.lvl = 0, pre |-> r.clear /\ r.lvl >= 0, degs |-> {a.deg},
+        out |-> IF a.lvl = 0 THEN Dead ELSE MkOut(a.m, a.fb, r.sx, r.lvl, 1, a.md)]
+
 RelinRes(st) ==
     LET a == reg[st.a] IN
     [err |-> a.deg # 2 \/ keys # "full", pre |-> TRUE, degs |-> {1},
@@ -200,8 +218,8 @@ ScaleUpRes(st) ==
      out |-> MkOut(a.m, a.fb, SxMul(a.sx, SxPow2(st.k)), IF st.new THEN a.lvl ELSE Min2(a.lvl, reg[st.o].lvl), 1, a.md)]
 
 BinOps == {"Add", "Sub", "Mul", "MulRelin", "MulThenAdd", "MulRelinThenAdd"}
-UnOps  == {"Rescale", "Relinearize", "Rotate", "Conjugate", "ScaleUp"}
-NoNew  == {"MulThenAdd", "MulRelinThenAdd", "Rescale"}
+UnOps  == {"Rescale", "RescaleTo", "Relinearize", "Rotate", "Conjugate", "ScaleUp"}
+NoNew  == {"MulThenAdd", "MulRelinThenAdd", "Rescale", "RescaleTo"}
 
 Res(st) ==
     CASE st.op = "Add" -> AddSubRes(st, FALSE)
@@ -211,6 +229,7 @@ Res(st) ==
       [] st.op = "MulThenAdd" -> MulThenAddRes(st, FALSE)
       [] st.op = "MulRelinThenAdd" -> MulThenAddRes(st, TRUE)
       [] st.op = "Rescale" -> RescaleRes(st)
+      [] st.op = "RescaleTo" -> RescaleToRes(st)
       [] st.op = "Relinearize" -> RelinRes(st)
       [] st.op = "Rotate" -> RotRes(st)
       [] st.op = "Conjugate" -> ConjRes(st)
